@@ -1914,6 +1914,13 @@ PROBE_WHAT = {
 		'CppViewHelper.Initializer.parse (the field assignments are re-parsed from their rendered text with `this->(\\w+) = ([^;]+);`)',
 	'cxx:init-reads-local': 'a constructor that computes a local before assigning a field from it (`t = n * 2; self.k: int = t + 1`): every field assignment is moved into '
 		'the member initialiser list (`A(int n) : k(t + 1) { int t = n * 2; }`), ahead of the statements it depends on: g++ rejects (`t` was not declared)',
+	'reject:multiline-receiver': 'a method call or a dict-view loop whose receiver is rendered on several lines — a list / dict literal or a comprehension: `[v, n, 3].pop()`, '
+		'`[x + 1 for x in xs].copy()`, `{1: v, 2: n}.get(n, 7)`, `for k, x in {1: v}.items():` — is rejected: Errors.Fatal <- AttributeError (NoneType has no attribute group): '
+		'PatternParser.break_relay / break_dict_iterator match the rendered call with `(.+)(->|::|\\.)\\w+$`, and `.` does not match a newline',
+	'copy:chain-aliases': '`xs.copy().pop()` / `d.copy().pop(k)`: func_call/list_copy.j2 and dict_copy.j2 render `.copy()` as the bare receiver (the copy is left to a by-value '
+		'declaration), so inside a call chain no copy exists and the mutating method works on the original (python [3,3], c++ [3,2])',
+	'cxx:list-literal-operand': 'a list literal used as an operand — `n in [1, 2, v]`, `[v, n, 3][i]` — is emitted as a bare brace list (`std::find({..}.begin(), ..)`, `{..}[i]`): '
+		'g++ rejects (a braced-init-list is not an expression)',
 	'comp:range-begin-step': 'a list / dict comprehension over `range(begin, stop[, step])`: comp/comp_for_range.j2 pastes the whole argument text as the size '
 		'(`auto x = 0; x < 1, n; x++`): begin and step are ignored and the loop test is a comma expression (its value is `n`: an endless loop for n != 0); '
 		'only the one-argument form is right',
@@ -2024,6 +2031,23 @@ def probe_program(rng: random.Random, key: str | None = None) -> tuple[str, dict
 			use = 'o.k * 10 + o.n'
 		pre = f'class Box:\n{fields}\n\tdef __init__(self, n: int, xs: list[int]) -> None:\n{init}\n\n'
 		body = f'\to = Box({a} & 15, [{e1}, {b}, {rng.randint(0, 9)}, {a}])\n\treturn {use}\n'
+	elif key == 'reject:multiline-receiver':
+		body = rng.choice([
+			f'\tv = [{e1}, {a}, {rng.randint(0, 9)}].pop()\n\treturn v + {b}\n',
+			f'\txs = [{e1}, {a}]\n\tys = [x + {rng.randint(1, 5)} for x in xs].copy()\n\treturn ys[0] + len(ys)\n',
+			f'\tv = {{1: {a}, 2: {e1}}}.get({b} & 3, {rng.randint(0, 9)})\n\treturn v\n',
+			f'\tt = 0\n\tfor k, x in {{1: {a}, 2: {e1}}}.items():\n\t\tt += k * x\n\treturn t\n',
+		])
+	elif key == 'copy:chain-aliases':
+		body = rng.choice([
+			f'\txs = [{e1}, {a}, {b}]\n\tv = xs.copy().pop()\n\treturn v * 10 + len(xs)\n',
+			f'\td = {{1: {a}, 2: {e1}}}\n\tv = d.copy().pop({rng.randint(1, 2)})\n\treturn v * 10 + len(d)\n',
+		])
+	elif key == 'cxx:list-literal-operand':
+		body = rng.choice([
+			f'\treturn 1 if {a} in [{rng.randint(0, 9)}, {b}, {e1}] else 0\n',
+			f'\treturn [{e1}, {a}, {b}][{a} & 1] + {rng.randint(0, 9)}\n',
+		])
 	elif key == 'comp:range-begin-step':
 		rargs = rng.choice([f'{rng.randint(1, 3)}, ({a} & 7) + 4', f'0, ({a} & 7) + 2, {rng.randint(2, 3)}', f'{b} & 3, ({a} & 7) + 5', f'1, 9, ({b} & 1) + 1'])
 		body = rng.choice([
